@@ -106,7 +106,7 @@ func devCmd(args []string) {
 		staticDischarge(r.Obls)
 		if *solve {
 			dir := "/tmp/gvc-dev"
-			s.e.solveObligations(r.Obls, r.Axioms, r.Assumes, dir, *timeout, 6, false)
+			s.e.solveObligations(r.Obls, r.Axioms, r.Assumes, r.AssumePCs, dir, *timeout, 6, false)
 		}
 		for _, o := range r.Obls {
 			fmt.Printf("   %-8s %-7s %5.2fs %6d  %s\n", o.Status, o.Solver, o.Time, o.SMTLen, o.ID)
